@@ -82,6 +82,9 @@ def run_path(I, st, c, fi, res):
         res.requires_formula = list(st.pc)
     if not st.feasible():
         raise PathEnd("requires infeasible")
+    for cl in c.hints:
+        g = specs.eval_clause(I, st, cl, env, fi)
+        st.oblige("%s.hint[%s]" % (short, cl.label), g, meta={"kind": "hint", "clause": cl.text, "props": c.props})
     outcome = None
     result = NONE
     try:
@@ -114,8 +117,9 @@ def run_path(I, st, c, fi, res):
         env2["result"] = result
         for cl in c.ensures:
             g = specs.eval_clause(I, st, cl, env2, fi)
+            # clauses are proved in order, each one available to the next (proving A, then B under A, is proving A and B)
             st.oblige("%s.ensures[%s]" % (short, cl.label), g, meta={"kind": "ensures", "clause": cl.text, "props": cl.props},
-                      assume_after=False)
+                      assume_after=True)
     else:
         tag = "raise:" + exc.cls
         res.outcomes[tag] = res.outcomes.get(tag, 0) + 1
